@@ -82,7 +82,7 @@ func (C15) Meta() core.Meta {
 		Real:        []string{"cmd/age and cmd/age-keygen binaries built from the working tree", "Linux kernel: files, pipes, RLIMIT_FSIZE, /dev/full"},
 		Stub:        []string{"argv, environment, input files, identity/recipient files, file descriptors and limits (the plan)"},
 		FaultKinds:  []string{"fault.fsize", "fault.nodir", "fault.isdir", "fault.devfull", "fault.closedpipe", "fault.damage_header", "fault.damage_payload", "fault.damage_trunc", "fault.damage_trunc_chunk", "fault.no_matching_identity", "fault.competing_creator", "fault.passphrase_wrong", "fault.passphrase_empty", "fault.passphrase_hangup", "fault.passphrase_mismatch", "fault.passphrase_notmine"},
-		Probes:      []string{"probe.exit0_complete", "probe.exit_nonzero", "probe.killed_by_signal", "probe.same_file_refused", "probe.pre_existing_output", "probe.keygen_mode_checked", "probe.empty_plaintext", "probe.multi_chunk", "probe.fsize_limit_below_output", "probe.fsize_limit_at_or_above_output", "probe.header_refusal_output_untouched", "probe.partial_output_is_prefix", "probe.stdin_input", "probe.several_identity_files", "probe.dash_names", "probe.pre_existing_symlink", "probe.race_competitor_refused", "probe.race_competitor_created", "probe.passphrase_on_pseudo_terminal"},
+		Probes:      []string{"probe.exit0_complete", "probe.exit_nonzero", "probe.killed_by_signal", "probe.same_file_refused", "probe.pre_existing_output", "probe.keygen_mode_checked", "probe.empty_plaintext", "probe.multi_chunk", "probe.fsize_limit_below_output", "probe.fsize_limit_at_or_above_output", "probe.header_refusal_output_untouched", "probe.partial_output_is_prefix", "probe.stdin_input", "probe.several_identity_files", "probe.dash_names", "probe.pre_existing_symlink", "probe.race_competitor_refused", "probe.race_competitor_created", "probe.passphrase_on_pseudo_terminal", "probe.output_not_a_regular_file"},
 	}
 }
 
@@ -177,6 +177,11 @@ func (C15) Generate(r *core.RNG, tier string, idx uint64) interface{} {
 		p.PreEmpty = r.Chance(1, 2)
 		p.OutVia = "file"
 	}
+	if p.Fault.Kind == "" && p.SameAs == "" && !p.PreExist && (p.Op == "encrypt" || p.Op == "decrypt") && r.Chance(1, 6) {
+		// -o names something that is not a regular file: a FIFO somebody reads, /dev/stdout (a pipe), /dev/null
+		p.OutVia = []string{"fifo", "fifo", "devstdout", "devnull"}[r.Intn(4)]
+		p.Dash = false
+	}
 	if p.Fault.Kind == "" && p.SameAs == "" && r.Chance(1, 10) {
 		// passphrase flows: the prompts are answered on a pseudo-terminal
 		p.Op = "decrypt-p"
@@ -197,7 +202,7 @@ func (C15) Generate(r *core.RNG, tier string, idx uint64) interface{} {
 	if p.Op == "keygen-race" {
 		p.Fault, p.SameAs, p.PreExist, p.PreLink = OutFault{}, "", false, false
 	}
-	if idx%12 == 5 && (p.Fault.Kind == "" || p.Fault.Kind == "fsize") && p.SameAs == "" && p.Op != "keygen-race" && p.Op != "decrypt-p" && p.Op != "encrypt-p" && p.Op != "decrypt-sshenc" {
+	if idx%12 == 5 && (p.Fault.Kind == "" || p.Fault.Kind == "fsize") && p.SameAs == "" && p.Op != "keygen-race" && p.Op != "decrypt-p" && p.Op != "encrypt-p" && p.Op != "decrypt-sshenc" && p.OutVia != "fifo" && p.OutVia != "devstdout" && p.OutVia != "devnull" {
 		// exhaustive: every byte offset at which a size-limited output can fail
 		p.Sweep = true
 		p.Fault = OutFault{Kind: "fsize"}
@@ -609,6 +614,9 @@ func (e C15) one(p *C15Plan, fault OutFault, c *core.Ctx, ageBin, kgBin string, 
 	outPath := filepath.Join(dir, "out.bin")
 	var stdoutFile *os.File
 	var closeRead *os.File
+	var fifoData []byte
+	var fifoDone chan struct{}
+	var fifoStop func()
 	fsize := -1
 	pre := []byte("PRE-EXISTING CONTENT THAT MUST SURVIVE A REFUSAL\n")
 	if p.PreEmpty {
@@ -682,6 +690,37 @@ func (e C15) one(p *C15Plan, fault OutFault, c *core.Ctx, ageBin, kgBin string, 
 		} else {
 			argv = append(argv, "-o", outPath)
 		}
+	case "fifo":
+		// a named pipe with a reader attached (the harness keeps both ends open so that age never blocks or gets SIGPIPE)
+		if err := syscall.Mkfifo(outPath, 0o600); err != nil {
+			return core.Fail("harness", "mkfifo: %v", err)
+		}
+		rd, err := os.OpenFile(outPath, os.O_RDWR, 0)
+		if err != nil {
+			return core.Fail("harness", "open fifo: %v", err)
+		}
+		defer rd.Close()
+		fifoDone = make(chan struct{})
+		go func() {
+			defer close(fifoDone)
+			buf := make([]byte, 65536)
+			for {
+				n, err := rd.Read(buf)
+				fifoData = append(fifoData, buf[:n]...)
+				if err != nil {
+					return
+				}
+			}
+		}()
+		fifoStop = func() { rd.SetReadDeadline(time.Now().Add(30 * time.Millisecond)); <-fifoDone }
+		argv = append(argv, "-o", outPath)
+		c.Stats.Inc("probe.output_not_a_regular_file")
+	case "devstdout":
+		argv = append(argv, "-o", "/dev/stdout") // stdout is a pipe the harness reads
+		c.Stats.Inc("probe.output_not_a_regular_file")
+	case "devnull":
+		argv = append(argv, "-o", "/dev/null")
+		c.Stats.Inc("probe.output_not_a_regular_file")
 	case "stdout-file":
 		f, err := os.Create(outPath)
 		if err != nil {
@@ -730,6 +769,9 @@ func (e C15) one(p *C15Plan, fault OutFault, c *core.Ctx, ageBin, kgBin string, 
 	}
 
 	res := runProc(dir, p.Umask, stdin, stdoutFile, closeRead, fsize, argv...)
+	if fifoStop != nil {
+		fifoStop()
+	}
 	if res.timeout {
 		return core.Fail("C15.hang", "process did not finish within 60 s: %v", argv[1:])
 	}
@@ -744,9 +786,14 @@ func (e C15) one(p *C15Plan, fault OutFault, c *core.Ctx, ageBin, kgBin string, 
 	switch {
 	case fault.Kind == "devfull" || fault.Kind == "closedpipe":
 		gotKnown = false
-	case p.OutVia == "stdout":
+	case p.OutVia == "stdout" || p.OutVia == "devstdout":
 		got = res.stdout
 		destExists = true
+	case p.OutVia == "fifo":
+		got = fifoData
+		destExists = true
+	case p.OutVia == "devnull":
+		gotKnown = false
 	default:
 		b, err := os.ReadFile(func() string {
 			if filepath.IsAbs(outPath) {
@@ -804,6 +851,9 @@ func (e C15) one(p *C15Plan, fault OutFault, c *core.Ctx, ageBin, kgBin string, 
 	}
 
 	complete := func() (bool, string) {
+		if p.OutVia == "devnull" {
+			return true, "" // everything written to /dev/null counts as delivered (no limit applies to it); only the status is observable
+		}
 		if !gotKnown {
 			// /dev/full and closed pipes accept nothing: only an empty result counts as delivered
 			if expected != nil && len(expected) == 0 {
